@@ -10,11 +10,94 @@ open SF
 theorem ascending_same_positions (s s' : PySlice) (n : Nat) (ps : List Nat)
     (h : sliceToAscending s (n : Int) = some s') (hp : s.positions n = .ok ps) :
     s'.positions n = .ok (if (s.step.getD 1) < 0 then ps.reverse else ps) := by
-  sorry
+  obtain ⟨st, sp, se⟩ := s
+  cases se with
+  | none =>
+    simp only [sliceToAscending, Option.some.injEq] at h
+    subst h; simpa using hp
+  | some c =>
+    by_cases hpos : c > 0
+    · simp only [sliceToAscending, if_pos hpos, Option.some.injEq] at h
+      subst h
+      have : ¬ c < 0 := by omega
+      simpa [this] using hp
+    · by_cases h0 : c = 0
+      · subst h0; simp [PySlice.positions, PySlice.indices] at hp
+      · have hc : c < 0 := by omega
+        simp only [PySlice.positions, indices_neg st sp c hc n, Except.ok.injEq] at hp
+        subst hp
+        simp only [Option.getD_some, if_pos hc]
+        simp only [sliceToAscending, if_neg hpos] at h
+        have hnc : ((c.natAbs : Nat) : Int) = -c := by omega
+        have hstart0 : ∀ kstart, normStart st n = some kstart →
+            (match kstart with | none => (n : Int) - 1 | some v => min ((n : Int) - 1) v) = negStart st n := by
+          intro kstart hk
+          unfold negStart; rw [hk]; cases kstart <;> simp; omega
+        cases hks : normStart st n with
+        | none =>
+          rw [hks] at h
+          simp only [Option.some.injEq] at h
+          subst h
+          have hlen : rangeLen (negStart st n) (negStop sp n) c = 0 := by
+            have h1 : negStart st n = -1 := by unfold negStart; rw [hks]
+            have h2 : -1 ≤ negStop sp n := by
+              unfold negStop
+              cases hs : normStop sp n with
+              | none => simp
+              | some v => have := normStop_nonneg hs; simp; omega
+            unfold rangeLen
+            rw [if_neg (by omega), if_pos hc, if_neg (by omega)]
+          rw [rangeList, hlen]
+          simp [PySlice.positions, PySlice.indices, rangeList, rangeLen]
+        | some kstart =>
+          rw [hks] at h
+          by_cases hm1 : c = -1
+          · subst hm1
+            simp only [if_true, Option.some.injEq] at h
+            subst h
+            have := asc_positions n st sp kstart ((normStop sp n).map (· + 1)) (-1) (by omega) hks
+            simp only [Int.neg_neg] at this
+            apply this
+            cases normStop sp n <;> simp <;> omega
+          · simp only [if_neg hm1, if_neg h0, Option.some.injEq, hnc] at h
+            subst h
+            apply asc_positions n st sp kstart _ c hc hks
+            simp only [Option.getD_some]
+            cases normStop sp n with
+            | none =>
+              rw [Int.fdiv_eq_ediv_of_nonneg _ (show (0:Int) ≤ -c by omega)]
+              cases kstart <;> simp [negStart, hks, Int.min_comm]
+            | some ks =>
+              cases kstart <;>
+                simp [negStart, hks, Int.min_comm, Int.fdiv_eq_ediv_of_nonneg _ (show (0:Int) ≤ -c by omega)]
+
+/-- non-vacuity: `[5:0:-2]` on 6 positions addresses 5, 3, 1; the ascending slice is `[1:6:2]`. -/
+example : sliceToAscending ⟨some 5, some 0, some (-2)⟩ (6 : Nat) = some ⟨some 1, some 6, some 2⟩ ∧
+    PySlice.positions ⟨some 5, some 0, some (-2)⟩ 6 = .ok [5, 3, 1] ∧
+    PySlice.positions ⟨some 1, some 6, some 2⟩ 6 = .ok [1, 3, 5] := by decide
 
 /-- step 0 is the only rejected slice, and it is rejected by both (ValueError / ZeroDivisionError). -/
 theorem ascending_total (s : PySlice) (n : Nat) (ps : List Nat) (hp : s.positions n = .ok ps) :
     ∃ s', sliceToAscending s (n : Int) = some s' := by
-  sorry
+  obtain ⟨st, sp, se⟩ := s
+  cases se with
+  | none => exact ⟨_, rfl⟩
+  | some c =>
+    by_cases hpos : c > 0
+    · simp only [sliceToAscending, if_pos hpos]; exact ⟨_, rfl⟩
+    · by_cases h0 : c = 0
+      · subst h0; simp [PySlice.positions, PySlice.indices] at hp
+      · simp only [sliceToAscending, if_neg hpos, if_neg h0]
+        cases normStart st n with
+        | none => exact ⟨_, rfl⟩
+        | some kstart =>
+          dsimp only
+          by_cases hm1 : c = -1
+          · rw [if_pos hm1]; exact ⟨_, rfl⟩
+          · rw [if_neg hm1]; exact ⟨_, rfl⟩
+
+example : PySlice.positions ⟨none, none, some (-3)⟩ 7 = .ok [6, 3, 0] ∧
+    (∃ s', sliceToAscending ⟨none, none, some (-3)⟩ (7 : Nat) = some s') :=
+  ⟨by decide, _, rfl⟩
 
 end SF.C04
